@@ -22,6 +22,8 @@ if "--new" in sys.argv and os.path.exists("/verif/selftest_result.json"):
     done = {r["case"] for r in json.load(open("/verif/selftest_result.json")) if r["status"] == "DETECTED"}
     cases = [c for c in cases if c[0] not in done]
 
+REPLAYS = {}
+
 def run(case):
     name, pid, patch, metaf = case
     d = tempfile.mkdtemp(prefix="selftest-", dir="/tmp")
@@ -34,6 +36,14 @@ def run(case):
         r = subprocess.run(["/verif/bin/govc", "check", "-p", pid], env=env, capture_output=True, text=True)
         obls = re.findall(r"^  failed: (\S+)", r.stdout, re.M)
         vio = "VIOLATION property=" + pid in r.stdout
+        inputs = []
+        for m in re.finditer(r"^VIOLATION property=\S+ replay=(\S+)$", r.stdout, re.M):   # lines without no-failing-input-found
+            try:
+                rj = json.load(open(m.group(1)))
+                inputs.append({"obligation": rj.get("obligation"), "failing_input": rj.get("failing_input", "")[:600]})
+            except Exception:
+                pass
+        REPLAYS[name] = inputs
         status = "DETECTED" if (r.returncode == 1 and vio) else ("not-detected" if r.returncode == 0 else f"ERROR rc={r.returncode}: " + (r.stderr or r.stdout)[-200:])
         return case, status, obls
     finally:
@@ -51,7 +61,7 @@ for (name, pid, patch, metaf), status, obls in results:
         m["detected_by"] = {"check": f"./check {pid} quick", "result": status, "failing_obligations": obls[:8]} if status == "DETECTED" else {"check": f"./check {pid} quick", "result": status}
         json.dump(m, open(metaf, "w"), indent=1)
 print(f"{det}/{len(results)} detected")
-new = [{"case": n, "property": pid, "status": st, "failing_obligations": ob[:4]} for (n, pid, _, _), st, ob in results]
+new = [{"case": n, "property": pid, "status": st, "failing_obligations": ob[:4], "replayed_inputs": REPLAYS.get(n, [])} for (n, pid, _, _), st, ob in results]
 if ("--new" in sys.argv or sel or "--mutants-only" in sys.argv) and os.path.exists("/verif/selftest_result.json"):
     old = [r for r in json.load(open("/verif/selftest_result.json")) if r["case"] not in {x["case"] for x in new}]
     new = sorted(old + new, key=lambda r: r["case"])
